@@ -8,7 +8,7 @@ FINE = ["InstreamFineSediment"]                                  # math.Pow + ma
 
 CHECK = Check(
     "C12",
-    props_modules=["OW.Props.C12"],
+    props_modules=["OW.Props.C12", "OW.Props.Rounded.C12"],
     families=[
         Family("K", rtol=None, label="K-exact", args=["models=" + ",".join(ARITH), "prop=C12", "n=200"]),
         # Go's math.Pow and libm's pow differ in the last bits. 1e-9 relative. Absolute floor: these two kernels end a
@@ -31,6 +31,7 @@ CHECK = Check(
     pre_steps=[gentie_step],
     level="proof",
     trusted=[
+        "OW.Props.Rounded.C12: the INEQUALITY clauses are also proved over rounded arithmetic — the same kernel definitions instantiated at RNum R (OW/Proofs/Rounded.lean: every operation = exact real result followed by a rounding R.rnd that is monotone, odd, idempotent and fixes 0; literals rounded once; min/max/comparisons exact), for EVERY such R. Interpretation (not a Lean term): IEEE-754 binary64 round-to-nearest (or toward zero) on computations without overflow/NaN is one such R; math.Pow/Exp/Log are idealised as correctly rounded (only their sign / range is used). Two concrete non-identity instances (grid truncation, grid rounding away from zero) are constructed as witnesses",
         "hand-written Lean kernel models OW/Kernels/{LumpedConstituent,ConstituentDecay,InstreamCoarseSediment,"
         "InstreamFineSediment,InstreamParticulateNutrient,StorageParticulateTrapping,StorageTrapAll,"
         "StorageDissolvedDecay}.lean, each tied to the real wrapper+kernel (sim.Catalog → Run on one cell) on every run: "
@@ -46,6 +47,7 @@ CHECK = Check(
         "minimised pre-fix failing inputs are drawn first in every run",
     ],
     assumptions=[
+        "rounded theorems (OW.Props.Rounded.C12): same sign hypotheses as the real ones; Rep 2 (the literal 2.0 exact) for the half-life block; ConstituentDecay store >= 0 and StorageParticulateTrapping trapped <= incoming / outflowLoad >= 0 are FALSE under rounding (exact side conditions stated in constituentDecay_step / trapping_step; Lean witness constituentDecay_store_negative_away; float64 witnesses on the real code: ConstituentDecay inflowLoad=8.653835818026117 outflow=66.67587506863227 storage=0 dt=86400 -> final store -2.3e-10; StorageParticulateTrapping inflowLoad=8.3746908209646 full trapping -> outflowLoad -1.3e-15) — within the oracle tolerance c12Rtol; InstreamFineSediment / InstreamParticulateNutrient not restated under rounding",
         "budget theorems: no sign hypotheses; only Δt ≠ 0 where a rate is reported as mass/Δt (ConstituentDecay, "
         "InstreamFineSediment, InstreamParticulateNutrient); StorageParticulateTrapping needs Δt ≥ 0 and non-negative "
         "store/inputs (its clip at 0 is inactive exactly then); StorageDissolvedDecay needs doStorageDecay < 0.5",
